@@ -417,11 +417,21 @@ _public_ int m_ctx_deregister(void) {
     M_CTX_ASSERT();
     M_PARAM_ASSERT(c->state == M_CTX_IDLE);
 
-    int ret = pthread_setspecific(key, NULL);
-    if (ret == 0) {
+    /*
+     * Deregister modules while ctx is still the thread's one (else they would refuse).
+     * Meanwhile (eg: from modules' on_stop callbacks) the ctx cannot be looped,
+     * deregistered again (neither by the last module leaving it) nor accept new modules.
+     */
+    c->state = M_CTX_ZOMBIE;
+    c->finalized = true;
+    ssize_t len;
+    do {
+        len = m_map_len(c->modules);
         m_iterate(c->modules, ctx_destroy_mods, NULL);
-        m_mem_unref(c);
-    }
+    } while (m_map_len(c->modules) > 0 && m_map_len(c->modules) < len);
+
+    int ret = pthread_setspecific(key, NULL);
+    m_mem_unref(c);
     return ret;
 }
 
@@ -453,6 +463,7 @@ _public_ int m_ctx_fd(void) {
 
 _public_ int m_ctx_dispatch(void) {
     M_CTX_ASSERT();
+    M_PARAM_ASSERT(c->state != M_CTX_ZOMBIE);
 
     if (c->state == M_CTX_IDLE) {
         /* Ok, start now */
